@@ -210,3 +210,209 @@ def dead_after(fn, handoff_ev, varname):
             if True in ts.before.get(e.pos, set()):
                 bad.append(e)
     return bad
+
+
+# ---------------------------------------------------------------- interprocedural lock context
+
+def _map_lock(lockstr, argstrs, params):
+    """rewrite a caller-side lock string into the callee's parameter names"""
+    best = None
+    for a, p in zip(argstrs, params):
+        if a and (lockstr == a or lockstr.startswith(a + "->") or lockstr.startswith(a + ".")):
+            if best is None or len(a) > len(best[0]):
+                best = (a, p)
+    if best is None:
+        return None
+    return best[1] + lockstr[len(best[0]):]
+
+
+WAIT_PRED = {"aws_condition_variable_wait_pred": (1, 2, 3), "aws_condition_variable_wait_for_pred": (1, 3, 4)}  # (mutex, pred, ctx) arg indices
+
+
+def entry_locksets(fns, requires, lock_kw=None, rounds=4):
+    """fns: {name: Fn}.  requires: names of functions analysed as 'requires-lock' (static helpers and wait predicates):
+    their entry lockset is the intersection, over all their call sites / wait sites in fns, of the caller's must-lockset
+    mapped into the callee's parameter names.  Returns ({name: frozenset}, {name: [site descriptions]}, problems)"""
+    lock_kw = lock_kw or {}
+    entry = {n: frozenset() for n in fns}
+    sites = {n: [] for n in requires}
+    problems = []
+    for _ in range(rounds):
+        new = {n: None for n in requires}
+        sites = {n: [] for n in requires}
+        for cname, f in fns.items():
+            ts = lockset(f, init=entry.get(cname, frozenset()), **lock_kw)
+            for e in f.all_events():
+                if e.kind != "call":
+                    continue
+                c = e.node.get("callee")
+                held = held_at(ts, e)
+                if held is None:
+                    continue
+                if c in requires and c in fns:
+                    callee = fns[c]
+                    args = [argstr(f, e.node, i, addr=False) for i in range(len(e.node["a"]))]
+                    args_obj = [argstr(f, e.node, i, addr=True) for i in range(len(e.node["a"]))]
+                    params = [p["n"] for p in callee.params]
+                    mapped = set()
+                    for L in held:
+                        m = _map_lock(L, args, params)
+                        if m:
+                            mapped.add(m)
+                    new[c] = mapped if new[c] is None else (new[c] & mapped)
+                    sites[c].append("%s:%d" % (cname, e.line))
+                if c in WAIT_PRED:
+                    mi, pi, ci = WAIT_PRED[c]
+                    p = arg(f, e.node, pi)
+                    if p is not None and p["k"] == "fn" and p["n"] in requires and p["n"] in fns:
+                        callee = fns[p["n"]]
+                        m_obj = argstr(f, e.node, mi)
+                        ctx = argstr(f, e.node, ci, addr=False)
+                        mapped = set()
+                        if m_obj in held and callee.params:
+                            m = _map_lock(m_obj, [ctx], [callee.params[0]["n"]])
+                            if m:
+                                mapped.add(m)
+                        new[p["n"]] = mapped if new[p["n"]] is None else (new[p["n"]] & mapped)
+                        sites[p["n"]].append("%s:%d(wait predicate)" % (cname, e.line))
+        changed = False
+        for n in requires:
+            v = frozenset(new[n] or ())
+            if v != entry.get(n):
+                entry[n] = v
+                changed = True
+        if not changed:
+            break
+    # a requires-lock function must not escape as a plain function value (other than as a wait predicate) and must have a site
+    for n in requires:
+        if n in fns and not sites.get(n):
+            problems.append("requires-lock function %s has no call site in the analysed files" % n)
+    return entry, sites, problems
+
+
+def fn_value_uses(fns, name):
+    """places where function `name` is used as a value (not as a direct callee)"""
+    out = []
+    for f in fns.values():
+        for b in f.blocks.values():
+            for el in b.elems:
+                for n in f.walk(el):
+                    if n["k"] == "call":
+                        for i, a in enumerate(n["a"]):
+                            x = f.d(a)
+                            if x is not None and x["k"] == "fn" and x["n"] == name:
+                                out.append((f, n, i))
+    return out
+
+
+# ---------------------------------------------------------------- comparisons and guards
+
+NEG = {"<": ">=", "<=": ">", ">": "<=", ">=": "<", "==": "!=", "!=": "=="}
+FLIP = {"<": ">", "<=": ">=", ">": "<", ">=": "<=", "==": "==", "!=": "!="}
+
+
+def cmp_norm(fn, cond, pol):
+    """normalise a branch condition taken with polarity pol (True/False) to (lhs, op, rhs) nodes;
+    truthiness tests become (x, '!=', None) / (x, '==', None)."""
+    n = fn.d(cond)
+    if n is None or not isinstance(pol, bool):
+        return None
+    while n["k"] == "un" and n["op"] == "!":
+        pol = not pol
+        n = fn.d(n["a"][0])
+    while n["k"] == "cast" and n.get("ck") in ("IntegralToBoolean", "PointerToBoolean", "IntegralCast"):
+        n = fn.d(n["a"][0])
+        while n["k"] == "un" and n["op"] == "!":
+            pol = not pol
+            n = fn.d(n["a"][0])
+    if n["k"] == "bin" and n["op"] in NEG:
+        op = n["op"] if pol else NEG[n["op"]]
+        return (fn.d(n["a"][0]), op, fn.d(n["a"][1]))
+    return (n, "!=" if pol else "==", None)
+
+
+def guards(fn, ev, dom=None):
+    """branch decisions that every path to ev must have taken: list of (cond, polarity, block) for each dominating
+    two-way branch one of whose successors dominates (or is) ev's block while the other cannot reach ev's block"""
+    dom = dom or dominators(fn)
+    out = []
+    target = ev.blk
+    reach_cache = {}
+
+    def reaches(src, avoid):
+        key = (src, avoid)
+        if key in reach_cache:
+            return reach_cache[key]
+        seen = set()
+        st = [src]
+        r = False
+        while st:
+            b = st.pop()
+            if b == avoid:
+                continue
+            if b == target:
+                r = True
+                break
+            if b in seen:
+                continue
+            seen.add(b)
+            st.extend(s for s, _, _ in edges(fn, b))
+        reach_cache[key] = r
+        return r
+
+    for b in dom.get(target, ()):
+        es = edges(fn, b)
+        if len(es) != 2 or es[0][1] is None or not isinstance(es[0][2], bool):
+            continue
+        (s0, c0, p0), (s1, c1, p1) = es
+        r0 = s0 == target or reaches(s0, b)
+        r1 = s1 == target or reaches(s1, b)
+        if r0 and not r1:
+            out.append((c0, p0, b))
+        elif r1 and not r0:
+            out.append((c1, p1, b))
+    return out
+
+
+def same(fn, a, b, alias=True):
+    if a is None or b is None:
+        return a is b
+    return fn.show(a, alias=alias) == fn.show(b, alias=alias)
+
+
+def indirect_via(fn, callnode):
+    """for an indirect call: (record, field) of the function pointer when it is read from a struct field"""
+    f = fn.d(callnode.get("fn"))
+    while f is not None and f["k"] in ("un",) and f["op"] == "deref":
+        f = fn.d(f["a"][0])
+    if f is not None and f["k"] == "member":
+        return (f.get("rec"), f["f"])
+    if f is not None and f["k"] == "var":
+        return ("<var>", f["n"])
+    return None
+
+
+def uncast(fn, n):
+    n = fn.d(n)
+    while n is not None and n["k"] == "cast":
+        n = fn.d(n["a"][0])
+    return n
+
+
+def call_test(fn, cond, pol):
+    """branch on a call result: returns (callnode, 'zero'|'nonzero') for `call`, `!call`, `call == 0`, `call != 0`, `0 == call`"""
+    g = cmp_norm(fn, cond, pol)
+    if not g:
+        return None
+    l, op, r = g
+    l = uncast(fn, l)
+    if r is None:
+        if l is not None and l["k"] == "call":
+            return (l, "nonzero" if op == "!=" else "zero")
+        return None
+    r = uncast(fn, r)
+    if l is not None and l["k"] == "call" and fn.is_const(r) == 0 and op in ("==", "!="):
+        return (l, "zero" if op == "==" else "nonzero")
+    if r is not None and r["k"] == "call" and fn.is_const(l) == 0 and op in ("==", "!="):
+        return (r, "zero" if op == "==" else "nonzero")
+    return None
